@@ -181,7 +181,7 @@ def gen_faults(rng, pools, p_open=.55, p_start=.25):
     faults = []
     if rng.random() < p_open:
         for d in rng.sample(list(CAMS + STOS), rng.choice([1, 1, 2])):
-            faults.append("openfail %d %d" % (d, rng.choice([1, 1, 2])))
+            faults.append("%s %d %d" % (rng.choice(["openfail", "openfail", "descfail"]), d, rng.choice([1, 1, 2])))
     if rng.random() < p_start:
         faults.append("camstartfail %d %d" % (rng.choice(CAMS), rng.choice([1, 1, 2])))
     return faults
@@ -241,14 +241,25 @@ def api_calls(prog):
 def project(lines):
     """harness output of one run -> [(api line, [(dev, act)] of the DRV lines since the previous api line)]"""
     segs, cur = [], []
+    pending_close = {}
     for ln in lines:
         if ln.startswith("DRV "):
             t = ln.split()
             dev, op = int(t[1]), t[2]
             if op == "open":
                 cur.append((dev, "openfail" if "-> err" in ln else "open"))
+            elif op == "describe":
+                # open() succeeded but describe() failed: driver_open_device must close the device it opened and report the
+                # failure — to the runtime (and to M2) that is a failed open; the close that belongs to it is checked here
+                for k in range(len(cur) - 1, -1, -1):
+                    if cur[k] == (dev, "open"):
+                        cur[k] = (dev, "openfail")
+                        break
+                pending_close[dev] = pending_close.get(dev, 0) + 1
             elif op == "start":
                 cur.append((dev, "startfail" if "-> err" in ln else "start"))
+            elif op == "close" and pending_close.get(dev, 0) > 0:
+                pending_close[dev] -= 1
             elif op in ("set", "stop", "close"):
                 cur.append((dev, op))
             # get_frame / append / trigger: data calls
@@ -258,6 +269,9 @@ def project(lines):
                 if t[1] in ("select", "bad-op"):
                     segs.append((ln, cur)); cur = []
                 continue
+            for d, k in pending_close.items():
+                cur += [(d, "leaked-after-failed-describe")] * k   # no counterpart in the model: reported as a difference
+            pending_close.clear()
             segs.append((ln, cur))
             cur = []
     return segs, cur
@@ -425,6 +439,8 @@ def run_m2(ctx, ex, budget_s=None):
                 for f in sc.get("faults", []):
                     if f.split()[0] in ("openfail", "camstartfail"):
                         mops.append(f)
+                    elif f.split()[0] == "descfail":    # to the control plane a failed describe is a failed open
+                        mops.append(f.replace("descfail", "openfail"))
                 ok = len(segs) == len(calls) and not tail
                 if ok:
                     for (kind, tmpl), (api_line, evs) in zip(calls, segs):
